@@ -307,6 +307,12 @@ def vkey(body, x, depth=0):
             return vkey(body, c.args[0], depth + 1)  # the provenance trace looks through these: so must the key
     else:
         t = trace(body, x)
+        if t.kind == "rv" and depth <= 4 and isinstance(t.root[1], Stmt) and t.root[1].rv.kind == "bin" and t.fields in ([], ["tuple.0"]):
+            # the same arithmetic on the same (structurally identical) operands, evaluated twice: `cap * 2` in the test and in the branch
+            rv = t.root[1].rv
+            ks = tuple(vkey(body, o, depth + 1) for o in rv.ops)
+            if all(k[0] in ("param", "pure", "const", "bin", "upvar") for k in ks):
+                return ("bin", rv.op.replace("WithOverflow", "").replace("Unchecked", ""), ks)
         if t.kind != "call" or t.fields or depth > 4:
             return t.key()
         c = t.root[1]
